@@ -4,6 +4,12 @@
   invert    if c: A else: B  ->  if not c: B else: A   (plain if/else without elif)
   reorder   methods of every class and top-level functions of every module in reverse order (imports, constants, classes keep their relative places)
   logging   a LOGGER.debug("...") inserted as first statement of every function in modules that define LOGGER
+  ifexp     a if c else b  ->  b if not c else a
+  unelse    if c: A(ends in return/raise/continue/break) else: B  ->  if c: A ; B   (guard-clause form)
+  ctor      {} -> dict(), [] -> list()   (empty literals only)
+  chain     a < b <= c  ->  a < b and b <= c   (when b is a Name, Attribute of a Name, or Constant: no double evaluation of calls)
+  noteq     a != b -> not a == b ;  a is not b -> not a is b
+  kwargs    positional arguments of calls to package classes with a unique name / self.method calls  ->  keyword arguments
 """
 import ast, sys
 from pathlib import Path
@@ -23,6 +29,125 @@ class Invert(ast.NodeTransformer):
         if node.orelse and not (len(node.orelse) == 1 and isinstance(node.orelse[0], ast.If)):
             return ast.copy_location(ast.If(test=ast.UnaryOp(op=ast.Not(), operand=node.test), body=node.orelse, orelse=node.body), node)
         return node
+
+
+class IfExp_(ast.NodeTransformer):
+    def visit_IfExp(self, node):
+        self.generic_visit(node)
+        return ast.copy_location(ast.IfExp(test=ast.UnaryOp(op=ast.Not(), operand=node.test), body=node.orelse, orelse=node.body), node)
+
+
+_TERM = (ast.Return, ast.Raise, ast.Continue, ast.Break)
+
+
+class Unelse(ast.NodeTransformer):
+    def _block(self, stmts):
+        out = []
+        for st in stmts:
+            st = self.visit(st)
+            if isinstance(st, ast.If) and st.orelse and st.body and isinstance(st.body[-1], _TERM) and not (len(st.orelse) == 1 and isinstance(st.orelse[0], ast.If)):
+                rest, st.orelse = st.orelse, []
+                out.append(st)
+                out.extend(rest)
+            else:
+                out.append(st)
+        return out
+
+    def generic_visit(self, node):
+        for f in ("body", "orelse", "finalbody"):
+            v = getattr(node, f, None)
+            if isinstance(v, list) and v and isinstance(v[0], ast.stmt):
+                setattr(node, f, self._block(v))
+        for h in getattr(node, "handlers", []) or []:
+            h.body = self._block(h.body)
+        return node
+
+
+class Ctor(ast.NodeTransformer):
+    def visit_Dict(self, node):
+        self.generic_visit(node)
+        if not node.keys:
+            return ast.copy_location(ast.Call(func=ast.Name(id="dict", ctx=ast.Load()), args=[], keywords=[]), node)
+        return node
+
+    def visit_List(self, node):
+        self.generic_visit(node)
+        if not node.elts and isinstance(node.ctx, ast.Load):
+            return ast.copy_location(ast.Call(func=ast.Name(id="list", ctx=ast.Load()), args=[], keywords=[]), node)
+        return node
+
+
+def _simple(e):
+    return isinstance(e, (ast.Name, ast.Constant)) or (isinstance(e, ast.Attribute) and _simple(e.value))
+
+
+class Chain(ast.NodeTransformer):
+    def visit_Compare(self, node):
+        self.generic_visit(node)
+        if len(node.ops) > 1 and all(_simple(c) for c in node.comparators[:-1]):
+            parts, left = [], node.left
+            for op, right in zip(node.ops, node.comparators):
+                parts.append(ast.Compare(left=left, ops=[op], comparators=[right]))
+                left = right
+            return ast.copy_location(ast.BoolOp(op=ast.And(), values=parts), node)
+        return node
+
+
+class NotEq(ast.NodeTransformer):
+    def visit_Compare(self, node):
+        self.generic_visit(node)
+        if len(node.ops) == 1 and isinstance(node.ops[0], (ast.NotEq, ast.IsNot)):
+            pos = ast.Eq() if isinstance(node.ops[0], ast.NotEq) else ast.Is()
+            return ast.copy_location(ast.UnaryOp(op=ast.Not(), operand=ast.Compare(left=node.left, ops=[pos], comparators=node.comparators)), node)
+        return node
+
+
+def _params(fn, skip_self=True):
+    a = fn.args
+    if a.vararg or a.posonlyargs:
+        return None
+    names = [x.arg for x in a.args]
+    return names[1:] if skip_self and names and names[0] in ("self", "cls") else names
+
+
+def kwargs_all(trees):
+    classes = {}
+    for t in trees.values():
+        for n in ast.walk(t):
+            if isinstance(n, ast.ClassDef):
+                classes.setdefault(n.name, []).append(n)
+    ctor = {}
+    for name, cs in classes.items():
+        if len(cs) != 1 or any(d for d in cs[0].decorator_list):
+            continue
+        inits = [f for f in cs[0].body if isinstance(f, ast.FunctionDef) and f.name == "__init__"]
+        if len(inits) == 1 and not inits[0].decorator_list:
+            ps = _params(inits[0])
+            if ps is not None:
+                ctor[name] = ps
+    for t in trees.values():
+        for cls in [n for n in ast.walk(t) if isinstance(n, ast.ClassDef)]:
+            own = {f.name: _params(f) for f in cls.body if isinstance(f, ast.FunctionDef) and not f.decorator_list and f.name.startswith("_" + "_") and not f.name.endswith("_" + "_")}
+            for call in [n for n in ast.walk(cls) if isinstance(n, ast.Call)]:
+                f = call.func
+                if isinstance(f, ast.Attribute) and isinstance(f.value, ast.Name) and f.value.id == "self" and own.get(f.attr):
+                    _kw(call, own[f.attr])
+        for call in [n for n in ast.walk(t) if isinstance(n, ast.Call)]:
+            if isinstance(call.func, ast.Name) and call.func.id in ctor:
+                _kw(call, ctor[call.func.id])
+
+
+def _kw(call, params):
+    if any(isinstance(a, ast.Starred) for a in call.args) or len(call.args) > len(params):
+        return
+    used = {k.arg for k in call.keywords}
+    new = []
+    for a, p in zip(call.args, params):
+        if p in used:
+            return
+        new.append(ast.keyword(arg=p, value=a))
+    call.args = []
+    call.keywords = new + call.keywords
 
 
 def reorder(tree):
@@ -49,8 +174,16 @@ def logging_(tree):
 
 
 root, kind = Path(sys.argv[1]), sys.argv[2]
+if kind == "kwargs":
+    trees = {p: ast.parse(p.read_text()) for p in sorted(root.rglob("*.py"))}
+    kwargs_all(trees)
+    for p, tree in trees.items():
+        ast.fix_missing_locations(tree)
+        p.write_text(ast.unparse(tree) + "\n")
+    sys.exit(0)
 for p in sorted(root.rglob("*.py")):
     tree = ast.parse(p.read_text())
-    tree = {"aug": lambda t: Aug().visit(t), "invert": lambda t: Invert().visit(t), "reorder": reorder, "logging": logging_}[kind](tree)
+    tree = {"aug": lambda t: Aug().visit(t), "invert": lambda t: Invert().visit(t), "reorder": reorder, "logging": logging_, "ifexp": lambda t: IfExp_().visit(t), "unelse": lambda t: Unelse().visit(t),
+            "ctor": lambda t: Ctor().visit(t), "chain": lambda t: Chain().visit(t), "noteq": lambda t: NotEq().visit(t)}[kind](tree)
     ast.fix_missing_locations(tree)
     p.write_text(ast.unparse(tree) + "\n")
